@@ -171,6 +171,30 @@ theorem labelled_beq_labelled (label s1 s2 : String) (h : mismatch s1.toList s2.
   rw [h3] at h2
   cases h2
 
+/-- every labelled name continues with a dot after its stem -/
+theorem labelled_toList_dot (label stem : String) :
+    ∃ rest, (labelled label stem).toList = (stem.toList ++ ['.']) ++ rest := by
+  rw [labelled_toList]
+  unfold mid
+  split
+  · exact ⟨['n', 'p', 'y'], by simp⟩
+  · exact ⟨label.toList ++ ['.', 'n', 'p', 'y'], by simp⟩
+
+theorem labelled_beq_labelled_dot (label s1 s2 : String)
+    (h : mismatch s1.toList (s2.toList ++ ['.']) = true) :
+    (labelled label s1 == labelled label s2) = false := by
+  simp only [beq_eq_false_iff_ne, ne_eq]
+  intro heq
+  have := congrArg String.toList heq
+  obtain ⟨rest, hr⟩ := labelled_toList_dot label s2
+  rw [labelled_toList, hr] at this
+  have h2 := not_prefix_of_mismatch _ _ rest h
+  rw [← this] at h2
+  have h3 : ∀ l r : List Char, l.isPrefixOf (l ++ r) = true := fun l r =>
+    List.isPrefixOf_iff_prefix.mpr (List.prefix_append _ _)
+  rw [h3] at h2
+  cases h2
+
 theorem lookup_spike_times (label : String) (s : Source) :
     (exportDir label s).lookup "spike_times.npy" = none := by
   simp (disch := decide) [exportDir, List.lookup_cons, lit_beq_labelled]
@@ -251,6 +275,99 @@ theorem reload_eq_source (inv : Arr → Arr) (label : String) (s : Source) (h : 
     lookup_clusters, read_channel_map, read_positions, scrub_vec, scrub_num, pure_bind, e1, e2, e3,
     e4, e5, e6, e7, e8, e9, e10, Bool.not_true, Bool.false_eq_true, if_false, Option.map_some]
   exact ⟨_, _, rfl, rfl, rfl, rfl, rfl, rfl, rfl, rfl⟩
+
+/-- a pattern whose literal prefix departs from `stem.` matches no labelled `stem` file -/
+theorem gm_lab_dot_false (pat label stem : String)
+    (h : mismatch (splitStar pat.toList).1 (stem.toList ++ ['.']) = true) :
+    globMatch pat (labelled label stem) = false := by
+  apply globMatch_false_of_not_prefix
+  obtain ⟨rest, hr⟩ := labelled_toList_dot label stem
+  rw [hr]
+  exact not_prefix_of_mismatch _ _ _ h
+
+/-- a star-free pattern matches no name of another length -/
+theorem globMatch_false_of_length (pat name : String) (pre : List Char)
+    (hs : splitStar pat.toList = (pre, none)) (hl : pre.length ≠ name.toList.length) :
+    globMatch pat name = false := by
+  unfold globMatch
+  simp only [hs, beq_eq_false_iff_ne, ne_eq]
+  intro heq
+  exact hl (congrArg List.length heq)
+
+theorem label_toList_ne_nil (label : String) (hl : label ≠ "") : label.toList ≠ [] := by
+  intro h
+  apply hl
+  apply String.ext
+  simpa using h
+
+theorem gm_exact_labelled_false (label : String) (hl : label ≠ "") :
+    globMatch "templates.waveforms.npy" (labelled label "templates.waveforms") = false := by
+  apply globMatch_false_of_length _ _ "templates.waveforms.npy".toList (by decide)
+  rw [labelled_toList]
+  have := List.length_pos_iff.mpr (label_toList_ne_nil label hl)
+  simp only [mid, hl, if_false, List.length_append, List.length_cons]
+  have e1 : "templates.waveforms.npy".toList.length = 23 := by decide
+  have e2 : "templates.waveforms".toList.length = 19 := by decide
+  rw [e1, e2]
+  simp only [List.length_nil]
+  omega
+
+theorem gm_dotted_labelled_true (label : String) (hl : label ≠ "") :
+    globMatch "templates.waveforms.*.npy" (labelled label "templates.waveforms") = true := by
+  apply globMatch_true_of_parts _ _ "templates.waveforms.".toList label.toList ['.', 'n', 'p', 'y']
+    (by decide)
+  rw [labelled_toList]
+  simp only [mid, hl, if_false]
+  have e : "templates.waveforms.".toList = "templates.waveforms".toList ++ ['.'] := by decide
+  rw [e]
+  simp
+
+theorem read_waveforms (label : String) (s : Source) :
+    readFile (exportDir label s)
+      ["templates.npy", "templates.waveforms.npy", "templates.waveforms.*.npy"] =
+      some s.waveforms := by
+  by_cases hl : label = ""
+  · subst hl
+    have hm : globMatch "templates.waveforms.npy" (labelled "" "templates.waveforms") = true := by
+      decide
+    simp (disch := decide) [readFile, findPath, exportDir, List.find?_cons, List.lookup_cons,
+      gm_lab_false, hm, labelled_beq_labelled]
+  · simp (disch := decide) [readFile, findPath, exportDir, List.find?_cons, List.lookup_cons,
+      gm_lab_false, gm_exact_labelled_false label hl,
+      gm_dotted_labelled_true label hl, labelled_beq_labelled]
+
+theorem read_waveform_channels (label : String) (s : Source) :
+    readFile (exportDir label s) ["template_ind.npy", "templates.waveformsChannels*.npy"] =
+      some s.waveformChannels := by
+  simp (disch := decide) [readFile, findPath, exportDir, List.find?_cons, List.lookup_cons,
+    gm_lab_false, gm_lab_dot_false, gm_lab_true, labelled_beq_labelled, labelled_beq_labelled_dot]
+
+theorem read_wm (label : String) (s : Source) :
+    readFile (exportDir label s) ["whitening_mat.npy"] = none := by
+  simp (disch := decide) [readFile, findPath, exportDir, List.find?_cons, gm_lab_false]
+
+theorem read_wmi (label : String) (s : Source) :
+    readFile (exportDir label s) ["whitening_mat_inv.npy"] = none := by
+  simp (disch := decide) [readFile, findPath, exportDir, List.find?_cons, gm_lab_false]
+
+theorem reload_templates (inv : Arr → Arr) (label : String) (s : Source) (h : SourceOK s) :
+    ∃ v d', load inv (exportDir label s) = .ok (v, d') ∧
+      v.templates = some (zeroNanTemplates (atleast 3 (squeeze s.waveforms))) ∧
+      v.templateCols = some (squeeze (scrub s.waveformChannels)) := by
+  obtain ⟨h1, h2, h3, h4, h5, h6, h8⟩ := h
+  unfold load
+  have e1 : squeeze (vec s.times) = vec s.times := squeeze_vec _ (by omega)
+  have e2 : squeeze (vec s.samples) = vec s.samples := squeeze_vec _ (by omega)
+  have e3 : squeeze (vec s.clusters) = vec s.clusters := squeeze_vec _ (by omega)
+  have e4 : squeeze (vec s.templates) = vec s.templates := squeeze_vec _ (by omega)
+  have e5 : squeeze (vec s.amps) = vec s.amps := squeeze_vec _ (by omega)
+  have e6 : squeeze (vec s.channelMap) = vec s.channelMap := squeeze_vec _ (by omega)
+  have e8 : monotone (vec s.times).data = true := h8
+  simp only [lookup_spike_times, read_times, read_samples, read_amps, read_templates, find_clusters,
+    lookup_clusters, read_channel_map, read_positions, read_waveforms, read_waveform_channels,
+    read_wm, read_wmi, scrub_vec, scrub_num, pure_bind, e1, e2, e3,
+    e4, e5, e6, e8, Bool.not_true, Bool.false_eq_true, if_false, Option.map_some, Option.map_none]
+  exact ⟨_, _, rfl, rfl, rfl⟩
 
 end Reload
 
